@@ -314,4 +314,68 @@ def inlineHref (dec : List Char → List Char) (str : List Char) (pos max : Nat)
     | some u => .ok (some (res.pos, some u))
     | none => .ok (some (pos, none))
 
+/-! ## the inline form `(<dest> "title")` of `parse_link` (`full_link.rs`), after the label -/
+
+/-- `' ' | '\t' | '\n'` -/
+def isWs (c : Char) : Bool := c == ' ' || c == '\t' || c == '\n'
+
+/-- `while let Some(' ' | '\t' | '\n') = chars.next() { pos += 1; }` -/
+def skipWs : List Char → Nat → Nat
+  | [], pos => pos
+  | c :: cs, pos => if isWs c then skipWs cs (pos + 1) else pos
+
+/-- what `parse_link` returns for the inline form: `href`, `title`, `end` -/
+structure InlineLink where
+  href : Option (List Nat)
+  title : Option (List Char)
+  endPos : Nat
+  deriving Repr, DecidableEq
+
+/-- the body of `if let Some(res) = parse_link_destination(..) { … }`: validation of the
+    destination (a rejected one leaves `pos` where it was and `href = None`), blanks, optional
+    title, blanks.  Result: `(href, title, pos)` -/
+def inlineAfterDest (dec : List Char → List Char) (src : List Char) (pos max : Nat) (res : Frag) :
+    Except Panic (Option (List Nat) × Option (List Char) × Nat) :=
+  let hp : Option (List Nat) × Nat :=
+    match inlineDest dec res.raw with
+    | some u => (some u, res.pos)
+    | none => (none, pos)
+  match slice src hp.2 max with
+  | .error e => .error e
+  | .ok chars =>
+    let pos := skipWs chars hp.2
+    match parseLinkTitle src pos max with
+    | .error e => .error e
+    | .ok none => .ok (hp.1, none, pos)
+    | .ok (some t) =>
+      match slice src t.pos max with
+      | .error e => .error e
+      | .ok chars' => .ok (hp.1, some (dec t.raw), skipWs chars' t.pos)
+
+/-- `parse_link` from `pos = label_end + 1` up to the point where it either returns the inline
+    link or falls through to the reference lookup (`none`) -/
+def parseInlineTail (dec : List Char → List Char) (src : List Char) (pos max : Nat) :
+    Except Panic (Option InlineLink) :=
+  match slice src pos max with
+  | .error e => .error e
+  | .ok chars =>
+    match chars with
+    | '(' :: rest =>
+      let pos := skipWs rest (pos + 1)
+      match parseLinkDestination src pos max with
+      | .error e => .error e
+      | .ok dest =>
+        let stage : Except Panic (Option (List Nat) × Option (List Char) × Nat) :=
+          match dest with
+          | none => .ok (none, none, pos)
+          | some res => inlineAfterDest dec src pos max res
+        match stage with
+        | .error e => .error e
+        | .ok (href, title, pos) =>
+          match slice src pos max with
+          | .error e => .error e
+          | .ok (')' :: _) => .ok (some ⟨href, title, pos + 1⟩)
+          | .ok _ => .ok none
+    | _ => .ok none
+
 end MdIt.Link
